@@ -243,6 +243,15 @@ class Ephem(Speaker):
 
                 yield orb
         else:
+            if start is not None and stop is not None:
+                _stop = start + stop if isinstance(stop, timedelta) else stop
+                if _stop < start:
+                    # Both ends are given and the stop is before the start
+                    yield from self._iter_backward(
+                        start, _stop, step, strict, listeners
+                    )
+                    return
+
             real_start = None
 
             if start is None:
@@ -302,6 +311,45 @@ class Ephem(Speaker):
 
                     yield orb
                     date += step
+
+    def _iter_backward(self, start, stop, step, strict, listeners):
+        """Same as :py:meth:`iter`, for a range walked from the latest date to the earliest"""
+
+        if start > self.stop or stop < self.start:
+            if strict:
+                raise ValueError(
+                    f"Dates '{start}', '{stop}' not in range [{self.start}, {self.stop}]"
+                )
+            start, stop = min(start, self.stop), max(stop, self.start)
+
+        if step is None:
+            # The points of the original ephemeris, last first
+            for orb in reversed(self._orbits):
+
+                if orb.date > start:
+                    continue
+
+                if orb.date < stop:
+                    break
+
+                for listen_orb in self.listen(orb, listeners):
+                    yield listen_orb
+
+                yield orb.copy()
+        else:
+            if step.total_seconds() > 0:
+                step = -step
+
+            date = start
+            while date >= stop:
+
+                orb = self.propagate(date)
+
+                for listen_orb in self.listen(orb, listeners):
+                    yield listen_orb
+
+                yield orb
+                date += step
 
     def ephemeris(self, *args, **kwargs):
         """Same as :py:meth:`self.iter() <iter>`
